@@ -140,6 +140,35 @@ def rand_gate(rng, width, names=None, max_controls=3, ang_profile="mixed", var_p
     return gspec("X", [0])
 
 
+def rand_gate_list(rng, width, n, names=None, max_controls=3, ang_profile="mixed", corr=0.45):
+    """gate list with correlated neighbours: repeats, inverses and re-parametrised copies of earlier gates, so that the
+    merge / cancel passes actually fire"""
+    gs = []
+    for _ in range(n):
+        if gs and rng.random() < corr:
+            g = dict(rng.choice(gs[-4:]))
+            g["t"] = list(g["t"]); g["c"] = None if g["c"] is None else list(g["c"])
+            kind = rng.choice(["same", "inv", "newang", "newang", "swapqubits"])
+            if isinstance(g["p"], list):
+                if kind == "inv":
+                    g["p"] = ang_neg(g["p"])
+                    if rng.random() < 0.3:       # inverse up to a full period / a half period
+                        g["p"] = ang_add(g["p"], [rng.choice([8, -8, 16]), 0, 0, 0, 0, 0, 0])
+                elif kind == "newang":
+                    g["p"] = rand_ang(rng, ang_profile)
+                elif kind == "same" and rng.random() < 0.3:
+                    g["p"] = ang_add(g["p"], [rng.choice([8, -8, 16, -16]), 0, 0, 0, 0, 0, 0])
+            elif kind == "inv" and g["n"] in ("S", "T"):
+                g = gspec("PHASE", g["t"], None, [-2 if g["n"] == "S" else -1, 0, 0, 0, 0, 0, 0], g["v"])
+            if kind == "swapqubits" and g["c"]:
+                g["t"], g["c"] = [g["c"][0]] + g["t"][1:], g["t"][:1] + g["c"][1:]
+            g["v"] = g["v"] if rng.random() < 0.8 else (not g["v"] and g["p"] is not None)
+            gs.append(g)
+        else:
+            gs.append(rand_gate(rng, width, names, max_controls, ang_profile))
+    return gs
+
+
 def to_tangelo_gate(spec):
     from tangelo.linq import Gate
     p = spec["p"]
@@ -208,7 +237,7 @@ def np_gate_unitary(spec, n):
     name = spec["n"]
     th = ang_float(spec["p"]) if isinstance(spec["p"], list) else (spec["p"] if isinstance(spec["p"], float) else None)
     I2 = np.eye(2, dtype=complex)
-    base = {"H": np.array([[1, 1], [1, -1]]) / math.sqrt(2), "X": np.array([[0, 1], [1, 0]]), "Y": np.array([[0, -1j], [1j, 0]]),
+    base = {"SDAG": np.diag([1, -1j]), "H": np.array([[1, 1], [1, -1]]) / math.sqrt(2), "X": np.array([[0, 1], [1, 0]]), "Y": np.array([[0, -1j], [1j, 0]]),
             "Z": np.diag([1, -1]), "S": np.diag([1, 1j]), "T": np.diag([1, cmath.exp(1j * math.pi / 4)])}
     if th is not None:
         c, s = math.cos(th / 2), math.sin(th / 2)
